@@ -3,11 +3,11 @@ primitive are environment symbols, so the obligations are about which fields and
 import re
 from mir2smt.ob import *
 from mir2smt import terms as T
-from mir2smt.exec import OpaqueV, IntV, BoolV, AggV, EnumV, RefV, UNIT, Stop, mk_option
+from mir2smt.exec import OpaqueV, IntV, BoolV, AggV, EnumV, RefV, UNIT, Stop, mk_option, mk_result
 from mir2smt import envlib as E
 from mir2smt.builtins import deref
 
-CRATES = ["ckb-constant", "ckb-occupied-capacity-core", "ckb-types", "ckb-chain"]
+CRATES = ["ckb-constant", "ckb-occupied-capacity-core", "ckb-types", "ckb-store", "ckb-chain", "ckb-block-filter", "ckb-light-client-protocol-server"]
 U64 = (1 << 64) - 1
 M256 = (1 << 256) - 1
 FIELDS = ["children_hash", "total_difficulty", "start_number", "end_number", "start_epoch", "end_epoch", "start_timestamp", "end_timestamp",
@@ -233,7 +233,237 @@ def m4_chain_root_mmr_follows_the_attached_chain(S):
     c03.m11_reconcile_main_chain(S, ob="C19.m4")
 
 
-OBLIGATIONS = [m1_merge, m2_verify, m3_verifiable_header, m4_chain_root_mmr_follows_the_attached_chain]
+def m5_block_filter(S):
+    """Block filter clauses: (a) `build_filter_data` adds to the filter the lock hash and (when present) type hash of EVERY output and of every spent input cell of every
+    non-cellbase transaction, and nothing else (1 transaction, 0..2 inputs, 0..2 outputs, presence of type scripts / of the input cell symbolic); (b) `calc_filter_hash` =
+    H(parent filter hash || H(filter data)); (c) `StoreTransaction::insert_block_filter` stores data and that hash under the block's own hash; (d) the builder
+    `build_filter_data_for_block` chains from the filter hash stored for the header's PARENT hash (zero for genesis), builds from the body of this block and stores under
+    this block's hash"""
+    from mir2smt.exec import ListV
+    ob = "C19.m5"
+
+    def nmv(ex, v):
+        v = deref(ex, v)
+        if isinstance(v, ListV):
+            return "[" + ",".join(nmv(ex, x) for x in v.items) + "]"
+        if isinstance(v, AggV):
+            return "[" + ",".join(nmv(ex, x) for x in v.fields) + "]"
+        return getattr(v, "name", None) or type(v).__name__
+    call = lambda tag: (lambda ex, c, a, d: OpaqueV(tag + "(" + ",".join(nmv(ex, x) for x in a) + ")", d))
+    # ---- (a)
+    f = [x for x in S.prog.funcs if x.kind == "fn" and x.short == "build_filter_data" and "utilities/block_filter.rs" in x.name]
+    if len(f) != 1:
+        raise Inconclusive(f"build_filter_data: {len(f)} candidates")
+    for nin in range(0, 3):
+        for nout in range(0, 3):
+            ctx = S.ctx(unwind=8)
+            ctx.uninterpreted_unknown_calls = True
+            ctx.max_paths = 3000
+            cellbase = ctx.bool("is_cellbase")
+            added = []
+
+            def add(ex, c, a, d, added=added):
+                added.append((nmv(ex, a[1]), list(ex.pc)))
+                return UNIT
+
+            def to_opt(ex, c, a, d):
+                base = nmv(ex, a[0])
+                return mk_option(ex.ctx.bool("has_" + re.sub(r"[^A-Za-z0-9]+", "_", base)).t, OpaqueV("some." + base, "Script"), d)
+
+            def cell(ex, c, a, d):
+                op = nmv(ex, a[1])
+                return mk_option(ex.ctx.bool("known_" + op).t, OpaqueV("cell_of." + op, "CellOutput"), d)
+            ctx.env = [
+                (E.rx(r"build_gcs_filter$"), lambda ex, c, a, d: OpaqueV("filter", d)),
+                (E.rx(r"Cursor::<.*>::new$|Vec::<u8>::new$"), lambda ex, c, a, d: OpaqueV("writer", d)),
+                (E.rx(r"GCSFilterWriter::<.*>::add_element$"), add),
+                (E.rx(r"GCSFilterWriter::<.*>::finish$"), lambda ex, c, a, d: mk_result(True, IntV(0, "usize"), OpaqueV("ioerr", "?"), d)),
+                (E.rx(r"Cursor::<.*>::into_inner$"), lambda ex, c, a, d: OpaqueV("filter_bytes", d)),
+                (E.rx(r"TransactionView::is_cellbase$"), lambda ex, c, a, d: cellbase),
+                (E.rx(r"TransactionView::input_pts_iter$"), E.list_source([OpaqueV(f"in{k}", "OutPoint") for k in range(nin)])),
+                (E.rx(r"TransactionView::outputs$"), E.list_source([OpaqueV(f"out{k}", "CellOutput") for k in range(nout)])),
+                (E.rx(r"FilterDataProvider>::cell$"), cell),
+                (E.rx(r"::calc_lock_hash$"), call("lock_hash")),
+                (E.rx(r"::calc_script_hash$"), call("script_hash")),
+                (E.rx(r"CellOutput::type_$"), call("type_of")),
+                (E.rx(r"::to_opt$"), to_opt),
+                (E.rx(r"::as_slice$"), lambda ex, c, a, d: OpaqueV(nmv(ex, a[0]), d)),
+            ] + list(E.LIST_ADAPTORS)
+            txs = ListV((OpaqueV("tx", "TransactionView"),), "[TransactionView]")
+            ps = S.run(ctx, f[0], [OpaqueV("provider", "P"), ctx.ref_to(txs)])
+            tag = f"in{nin}_out{nout}"
+            S.prove(ctx, ob, f"{tag}_no_panic", [], T.not_(cond_of(panics(ps))))
+
+            def when(name):
+                return T.or_(*[T.and_(*pc) for n, pc in added if n == name])
+            goals = []
+            expected = set()
+            for k in range(nout):
+                expected |= {f"lock_hash(out{k})", f"script_hash(some.type_of(out{k}))"}
+                goals.append(when(f"lock_hash(out{k})"))
+                goals.append(T.iff(when(f"script_hash(some.type_of(out{k}))"), ctx.bool(f"has_type_of_out{k}_").t))
+            for k in range(nin):
+                expected |= {f"lock_hash(cell_of.in{k})", f"script_hash(some.type_of(cell_of.in{k}))"}
+                kn = ctx.bool(f"known_in{k}").t
+                goals.append(T.iff(when(f"lock_hash(cell_of.in{k})"), T.and_(T.not_(cellbase.t), kn)))
+                goals.append(T.iff(when(f"script_hash(some.type_of(cell_of.in{k}))"), T.and_(T.not_(cellbase.t), kn, ctx.bool(f"has_type_of_cell_of_in{k}_").t)))
+            S.prove(ctx, ob, f"{tag}_every_output_and_spent_input_script_is_added", [], T.and_(*goals) if goals else True)
+            S.prove(ctx, ob, f"{tag}_nothing_else_is_added", [], bool(all(n in expected for n, _ in added)), extra={"note": str(sorted({n for n, _ in added} - expected))})
+    # ---- (b) calc_filter_hash
+    ctx = S.ctx()
+    ctx.uninterpreted_unknown_calls = True
+    ctx.env = [(E.rx(r"blake2b_256"), call("H")), (E.rx(r"::calc_raw_data_hash$"), call("H_data")), (E.rx(r"::as_slice$"), lambda ex, c, a, d: OpaqueV(nmv(ex, a[0]), d)),
+               (E.rx(r"::concat"), lambda ex, c, a, d: OpaqueV("cat" + nmv(ex, a[0]), d)),
+               (E.rx(r"as Unsize|as_slice|into_boxed_slice|as Deref>::deref$"), lambda ex, c, a, d: a[0])]
+    f = [x for x in S.prog.funcs if x.kind == "fn" and x.short == "calc_filter_hash" and "utilities/block_filter.rs" in x.name]
+    if len(f) != 1:
+        raise Inconclusive(f"calc_filter_hash: {len(f)} candidates")
+    ps = S.run(ctx, f[0], [ctx.ref_to(OpaqueV("parent_filter_hash", "Byte32")), ctx.ref_to(OpaqueV("filter_data", "Bytes"))])
+    rs = returns(ps)
+    got = nmv(None, rs[0].value) if len(rs) == 1 else None
+    S.prove(ctx, ob, "filter_hash_is_H_of_parent_filter_hash_then_data_hash", [], bool(got == "H(cat[parent_filter_hash,H_data(filter_data)])" and not panics(ps)), extra={"note": str(got)})
+    # ---- (c) insert_block_filter
+    ctx = S.ctx()
+    ctx.uninterpreted_unknown_calls = True
+    writes = []
+
+    def insert_raw(ex, c, a, d):
+        writes.append((nmv(ex, a[1]), nmv(ex, a[2]), nmv(ex, a[3])))
+        return mk_result(True, UNIT, OpaqueV("dberr", "Error"), d)
+    ctx.env = [(E.rx(r"StoreTransaction::insert_raw$"), insert_raw), (E.rx(r"calc_filter_hash$"), call("filter_hash")),
+               (E.rx(r"::as_slice$|as Deref>::deref$|as Unsize"), lambda ex, c, a, d: OpaqueV(nmv(ex, a[0]), d))]
+    f = [x for x in S.prog.funcs if x.kind == "fn" and x.short == "insert_block_filter" and "store/src/transaction.rs" in x.name]
+    if len(f) != 1:
+        raise Inconclusive(f"insert_block_filter: {len(f)} candidates")
+    ps = S.run(ctx, f[0], [ctx.ref_to(OpaqueV("txn", "StoreTransaction")), ctx.ref_to(OpaqueV("block_hash", "Byte32")), ctx.ref_to(OpaqueV("filter_data", "Bytes")), ctx.ref_to(OpaqueV("parent_filter_hash", "Byte32"))])
+    cols = _columns()
+    want = [(cols["COLUMN_BLOCK_FILTER"], "block_hash", "filter_data"), (cols["COLUMN_BLOCK_FILTER_HASH"], "block_hash", "filter_hash(parent_filter_hash,filter_data)")]
+    S.prove(ctx, ob, "insert_block_filter_stores_data_and_chained_hash_under_the_block_hash", [], bool(writes[:2] == want and not panics(ps)), extra={"note": str(writes)})
+    # ---- (d) the builder
+    f = [x for x in S.prog.funcs if x.kind == "fn" and x.short == "build_filter_data_for_block" and "block-filter/src/filter.rs" in x.name]
+    if len(f) != 1:
+        raise Inconclusive(f"build_filter_data_for_block: {len(f)} candidates")
+    ctx = S.ctx()
+    ctx.uninterpreted_unknown_calls = True
+    genesis = ctx.bool("is_genesis"); built = ctx.bool("already_built")
+    reads, ins, bodies = [], [], []
+
+    def gfh(ex, c, a, d):
+        key = nmv(ex, a[1])
+        reads.append((key, list(ex.pc)))
+        if key == "hash(header)":
+            return mk_option(built.t, OpaqueV("own_filter_hash", "Byte32"), d)
+        return mk_option(True, OpaqueV("filter_hash_of." + key, "Byte32"), d)
+
+    def ibf(ex, c, a, d):
+        ins.append(([nmv(ex, x) for x in a[1:]], list(ex.pc)))
+        return mk_result(True, UNIT, OpaqueV("dberr", "Error"), d)
+    ctx.env = list(E.LOGGING_OFF) + [
+        (E.rx(r"Shared::store$"), lambda ex, c, a, d: ex.ctx.ref_to(OpaqueV("db", "ChainDB"))),
+        (E.rx(r"HeaderView::hash$"), lambda ex, c, a, d: OpaqueV("hash(header)", d)),
+        (E.rx(r"HeaderView::parent_hash$"), lambda ex, c, a, d: OpaqueV("parent_hash(header)", d)),
+        (E.rx(r"HeaderView::is_genesis$"), lambda ex, c, a, d: genesis),
+        (E.rx(r"HeaderView::number$"), lambda ex, c, a, d: ex.ctx.int("number", "u64")),
+        (E.rx(r"Byte32>?::zero$"), lambda ex, c, a, d: OpaqueV("ZERO", d)),
+        (E.rx(r"ChainStore>::get_block_filter_hash$"), gfh),
+        (E.rx(r"ChainStore>::get_block_body$"), lambda ex, c, a, d: (bodies.append(nmv(ex, a[1])), OpaqueV("body", d))[1]),
+        (E.rx(r"(^|::)build_filter_data::<"), lambda ex, c, a, d: AggV((OpaqueV("filter_of(" + nmv(ex, a[1]) + ")", "Vec<u8>"), ListV((), "Vec<OutPoint>")), d)),
+        (E.rx(r"StoreTransaction::insert_block_filter$"), ibf),
+        (E.rx(r"StoreTransaction::commit$"), lambda ex, c, a, d: mk_result(True, UNIT, OpaqueV("dberr", "Error"), d)),
+        (E.rx(r"as Clone>::clone$|as Into<.*>>::into$|as From<.*>>::from$|as Deref>::deref$"), lambda ex, c, a, d: OpaqueV(nmv(ex, a[0]), d)),
+        (E.rx(r"WrappedChainDB::<.*>::new$|begin_transaction$|as Iterator>::|::iter$|::len$"), E.opaque_call()),
+    ] + list(E.LIST_ADAPTORS)
+    ps = S.run(ctx, f[0], [ctx.ref_to(OpaqueV("filter_service", "BlockFilter")), ctx.ref_to(OpaqueV("header", "HeaderView"))])
+    S.prove(ctx, ob, "builder_no_panic", [], T.not_(cond_of(panics(ps))))
+    reach = T.or_(*[T.and_(*pc) for _, pc in ins]) if ins else False
+    S.prove(ctx, ob, "builder_inserts_iff_not_already_built", [], T.iff(reach, T.not_(built.t)))
+    parent_reads = [(k, pc) for k, pc in reads if k != "hash(header)"]
+    S.prove(ctx, ob, "builder_reads_the_parent_filter_hash_under_the_headers_parent_hash", [], bool(parent_reads and all(k == "parent_hash(header)" for k, _ in parent_reads)), extra={"note": str([k for k, _ in reads])})
+    S.prove(ctx, ob, "builder_parent_filter_hash_read_iff_not_genesis", [T.not_(built.t)], T.iff(T.or_(*[T.and_(*pc) for _, pc in parent_reads]) if parent_reads else False, T.not_(genesis.t)))
+    ok = []
+    for args, pc in ins:
+        ok.append(T.implies(T.and_(*pc), T.ite(genesis.t, bool(args[2] == "ZERO"), bool(args[2] == "filter_hash_of.parent_hash(header)"))))
+    S.prove(ctx, ob, "builder_chains_from_the_parents_filter_hash_or_zero_at_genesis", [], T.and_(*ok) if ok else False)
+    S.prove(ctx, ob, "builder_stores_the_filter_of_this_blocks_body_under_this_blocks_hash", [], bool(ins and all(a[0] == "hash(header)" and a[1] == "filter_of(body)" for a, _ in ins) and bodies and all(b == "hash(header)" for b in bodies)),
+            extra={"note": str([a for a, _ in ins]) + str(bodies)})
+
+
+def _columns():
+    src = open(os.path.join(os.environ.get("VERIF_REPO", "/repo"), "db-schema/src/lib.rs")).read()
+    out = {}
+    for m in re.finditer(r"pub const (COLUMN_\w+): Col = \"(\d+)\";", src):
+        out[m.group(1)] = "const." + m.group(1)
+    return out
+
+
+
+def m6_light_client_proofs_only_for_main_chain_last_hash(S):
+    """the three proof servers of the light-client protocol (GetLastStateProof, GetBlocksProof, GetTransactionsProof; `async fn execute` -- the coroutine body is executed from
+    its initial state): a proof against the chain-root MMR of the snapshot is assembled ONLY when the client's `last_hash` is on the main chain OF THAT SNAPSHOT; for any other
+    hash (a stale fork block that is still stored) the server answers with its tip state instead.  The block it then loads as `last_header` is the one with that hash."""
+    from mir2smt.exec import CoroV
+    ob = "C19.m6"
+    for fname in ("get_last_state_proof", "get_blocks_proof", "get_transactions_proof"):
+        c = [f for f in S.prog.funcs if f.kind == "fn" and f"components/{fname}.rs" in f.name and re.search(r"::execute::\{closure#0\}$", f.name) and len(f.params) == 2 and "Context" in f.params[1][1]]
+        if len(c) != 1:
+            raise Inconclusive(f"{fname}::execute coroutine: {len(c)} candidates")
+        f = c[0]
+        ctx = S.ctx()
+        ctx.uninterpreted_unknown_calls = True
+        ctx.max_paths = 400
+        on_main = ctx.bool("last_hash_is_on_main_chain_of_the_snapshot")
+        asked, loaded, tip_replies = [], [], []
+
+        def nmv(ex, v):
+            v = deref(ex, v)
+            return getattr(v, "name", None) or type(v).__name__
+
+        def is_main(ex, c_, a, d):
+            asked.append((nmv(ex, a[0]), nmv(ex, a[1]), list(ex.pc)))
+            if len(asked) and any(x is not None for x in loaded):
+                return ex.ctx.fresh_of_type("other_is_main", "bool")
+            return on_main
+
+        def get_block(ex, c_, a, d):
+            loaded.append((nmv(ex, a[0]), nmv(ex, a[1]), list(ex.pc)))
+            raise Stop("proof assembly")
+
+        def reply_tip(ex, c_, a, d):
+            tip_replies.append(list(ex.pc))
+            return OpaqueV("tip_state_future", d)
+        ctx.env = list(E.LOGGING_OFF) + [
+            (E.rx(r"Shared::snapshot$"), lambda ex, c_, a, d: OpaqueV("snapshot", d)),
+            (E.rx(r"as Deref>::deref$"), lambda ex, c_, a, d: ex.ctx.ref_to(OpaqueV(nmv(ex, a[0]), "?"))),
+            (E.rx(r"Reader(::<'_>)?(<'_>)?::last_hash$"), lambda ex, c_, a, d: OpaqueV("msg_last_hash", d)),
+            (E.rx(r"::to_entity$"), lambda ex, c_, a, d: OpaqueV(nmv(ex, a[0]), d)),
+            (E.rx(r"ChainStore>::is_main_chain$|Snapshot::is_main_chain$"), is_main),
+            (E.rx(r"ChainStore>::get_block$|Snapshot::get_block$"), get_block),
+            (E.rx(r"LightClientProtocol::reply_tip_state::<"), reply_tip),
+            (E.rx(r" as Future>::poll$"), lambda ex, c_, a, d: EnumV(0, ((0, (OpaqueV("status_of_tip_reply", "Status"),)),), d)),
+            (E.rx(r"Reader(::<'_>)?(<'_>)?::(last_n_blocks|difficulties|block_hashes|tx_hashes)$"), E.opaque_call()),
+            (E.rx(r"::len$"), lambda ex, c_, a, d: ex.ctx.int("n_items", "usize")),
+            (E.rx(r"::is_empty$"), lambda ex, c_, a, d: BoolV(T.eq(ex.ctx.int("n_items", "usize").t, 0))),
+            (E.rx(r"as Into<u64>>::into$|as Unpack<u64>>::unpack$"), lambda ex, c_, a, d: ex.ctx.int("last_n_blocks", "u64")),
+            (E.rx(r"StatusCode::with_context::<"), lambda ex, c_, a, d: OpaqueV("malformed", d)),
+        ]
+        me = OpaqueV("process", "?")
+        coro = CoroV(0, ((0, me),), (), "coroutine")
+        ctx.add_side(T.le(T.var("last_n_blocks"), 1 << 20)) if False else None
+        ps = S.run(ctx, f, [AggV((ctx.ref_to(coro),), "Pin"), ctx.ref_to(OpaqueV("task_context", "Context"))], allow=("return", "panic", "stop"))
+        pre = [T.le(ctx.int("last_n_blocks", "u64").t, 1 << 16), T.le(ctx.int("n_items", "usize").t, 1 << 16)]
+        S.prove(ctx, ob, f"{fname}_no_panic_before_the_proof_is_assembled", pre, T.not_(cond_of(panics(ps))))
+        first = asked[:1]
+        S.prove(ctx, ob, f"{fname}_main_chain_test_is_on_the_snapshot_about_the_clients_last_hash", [], bool(first and first[0][0] == "snapshot" and first[0][1] == "msg_last_hash"), extra={"note": str(asked[:2])})
+        load = T.or_(*[T.and_(*pc) for _, _, pc in loaded]) if loaded else False
+        tipr = T.or_(*[T.and_(*pc) for pc in tip_replies]) if tip_replies else False
+        S.prove(ctx, ob, f"{fname}_proof_is_assembled_only_for_a_main_chain_last_hash", pre, T.implies(load, on_main.t))
+        S.prove(ctx, ob, f"{fname}_other_hashes_get_the_tip_state", pre, T.implies(T.and_(T.not_(on_main.t), T.or_(load, tipr)), T.and_(tipr, T.not_(load))))
+        S.prove(ctx, ob, f"{fname}_last_block_is_loaded_by_that_hash_from_the_snapshot", [], bool(loaded and all(s_ == "snapshot" and h == "msg_last_hash" for s_, h, _ in loaded)), extra={"note": str([(a, b) for a, b, _ in loaded])})
+        S.witness(ctx, ob, f"{fname}_reach_proof", pre, load)
+        S.witness(ctx, ob, f"{fname}_reach_tip_reply", pre, tipr)
+
+
+OBLIGATIONS = [m1_merge, m2_verify, m3_verifiable_header, m4_chain_root_mmr_follows_the_attached_chain, m5_block_filter, m6_light_client_proofs_only_for_main_chain_last_hash]
 
 ENGINE = "M"
 LEVEL = "other"
